@@ -480,7 +480,7 @@ def classify(built, res, diags):
             continue
         kind = None
         for key, k in (("postcondition", "postcondition"), ("post-condition", "postcondition"), ("pre-condition", "precondition"), ("precondition", "precondition"), ("invariant", "invariant"),
-                       ("assertion fail", "assertion"), ("decreases", "decreases"), ("overflow", "arithmetic"),
+                       ("assertion fail", "assertion"), ("decreases clause", None), ("decreases", "decreases"), ("overflow", "arithmetic"),
                        ("underflow", "arithmetic"), ("index", "bounds"), ("unwrap", "precondition"), ("possible", "arithmetic"),
                        ("recommendation", None)):
             if key in msg.lower():
